@@ -157,7 +157,12 @@ func checkQiBlock(blk *types.WorkObject, pre, post utxoSet, fail func(class, wit
 		minted[etx.Hash()].Add(minted[etx.Hash()], types.Denominations[u.Entry.Denomination])
 	}
 	for h, m := range minted {
-		if etx := etxHashes[h]; m.Cmp(etx.Value()) > 0 {
+		etx := etxHashes[h]
+		bound := etx.Value()
+		if types.IsCoinBaseTx(etx) && len(etx.Data()) > 0 && int(etx.Data()[0]) < len(params.LockupByteToBlockDepth) {
+			bound = params.CalculateCoinbaseValueWithLockup(etx.Value(), etx.Data()[0], num) // the protocol's lockup bonus
+		}
+		if m.Cmp(bound) > 0 {
 			fail("utxo-model", "etx-minted-more-than-value", fmt.Sprintf("block #%d: inbound ETX %x of value %v qits minted outputs worth %v", num, h[:6], etx.Value(), m))
 			return
 		}
